@@ -66,5 +66,7 @@ def main (args : List String) : IO UInt32 := do
   | ["wsadmit"] => loopPure stdin stdout Ocpp.Drv.stepWsAdmit; pure 0
   | ["wssrv"] => loopGen stdin stdout Ocpp.Drv.stepWsSrv {}; pure 0
   | ["wsio"] => loopGen stdin stdout Ocpp.Drv.stepWsIO {}; pure 0
+  | ["wscli"] => loopGen stdin stdout Ocpp.Drv.stepWsCli {}; pure 0
+  | ["wska"] => loopPure stdin stdout Ocpp.Drv.stepWsKa; pure 0
   | ["datetime"] => loopPure stdin stdout Ocpp.Drv.stepDateTime; pure 0
   | _ => IO.eprintln "usage: driver <suite>"; pure 2
